@@ -407,6 +407,11 @@ def cases(tier, seed):
                     # cycle through the (nu, A, B, C) lattice points available for this (p_th, ds, n_rates)
                     cand.sort(key=lambda c: (c['nu'], c['A'], c['B'], c['C']))
                     sel.append(cand[(5 * i + 1) % len(cand)])
+                    # a second, different lattice point per (p_th, ds, n_rates): the quick tier then visits two
+                    # (nu, A, B, C) corners of every planting column instead of one
+                    second = cand[(5 * i + 1 + len(cand) // 2) % len(cand)]
+                    if second is not sel[-1]:
+                        sel.append(second)
                     i += 1
         lat = sel
     out = []
